@@ -600,6 +600,11 @@ func init() {
 				c.Dims, c.DimsNil = drawHostileDims(t, drawRecv(t))
 				c.Conf = drawConf(t)
 				c.F = []float64{float64(hInt(t, "f0")), float64(hInt(t, "f1"))}
+				if rapid.IntRange(0, 5).Draw(t, "hugeparams") == 0 {
+					// valid parameters at the edge of the float64 range
+					huge := []float64{-1e308, 1e308, math.MaxFloat64, -math.MaxFloat64, 5e-324, 1.5e308, -1.7e308}
+					c.F = []float64{rapid.SampledFrom(huge).Draw(t, "hf0"), rapid.SampledFrom(huge).Draw(t, "hf1")}
+				}
 			},
 			call: call,
 			spec: func(c C09Case) expect {
